@@ -245,7 +245,7 @@ def run(ctx):
         "evaluations": evals, "distinct_nontrivial": len(distinct),
         "rule": "one evaluation = one corpus file (committed corpus first, then generated: 1-20 tests, names with punctuation/"
                 "newlines/non-ASCII, attribute lines :skip/:error/:fail-fast/:language/:cst/:platform + malformed ones, delimiter "
-                "lengths 3-12 (closing may differ), 40% with a suffix, inputs for zoo languages stmt/lst incl. delimiter-like lines and near-delimiter lines (dash/equals runs of length "
+                "lengths 3-12 (closing may differ), 40% with a suffix, inputs for zoo languages stmt/lst/fldx (fldx: field names arg1, argB, x_2, _rest9, Ret) incl. delimiter-like lines and near-delimiter lines (dash/equals runs of length "
                 "divider-1/=/+1.. followed by blanks, tabs, CR, Unicode white space, the suffix with white space around it, prefixes/"
                 "extensions of the suffix, leading white space; also inside expectations) and "
                 "erroneous inputs, expectations right/wrong/missing/badly indented/commented/junk, CRLF; 40% of the files updated through a "
